@@ -70,6 +70,10 @@ Section C19.
   Proof. exact (oos_map_wf T K key keqb keqb_spec). Qed.
   Theorem C19_oneorset_deser_wf : forall j v, oos_deser T K key keqb j = Some v -> oos_wf T K key v.
   Proof. exact (oos_deser_wf T K key keqb keqb_spec). Qed.
+  (* a one-element array and the bare item deserialise to the SAME value (the pinned tree kept the array as a one-element Set: repaired) *)
+  Theorem C19_oneorset_singleton_array_is_one : forall x,
+    oos_deser_gen T K key keqb true (JArr [x]) = Some (OSSet [x]) /\ oos_deser T K key keqb (JArr [x]) = Some (OSOne x).
+  Proof. exact (oos_deser_pinned_singleton_set T K key keqb). Qed.
   Theorem C19_singleton_bare : forall x,
     oos_ser T (oos_new_one T x) = JVal x
     /\ option_map (oos_ser T) (oos_new_set T [x]) = Some (JVal x)
@@ -108,6 +112,7 @@ Print Assumptions C19_oneorset_from_vec.
 Print Assumptions C19_oneorset_append_wf.
 Print Assumptions C19_oneorset_map_wf.
 Print Assumptions C19_oneorset_deser_wf.
+Print Assumptions C19_oneorset_singleton_array_is_one.
 Print Assumptions C19_singleton_bare.
 Print Assumptions C19_deser_ser_id_oneorset.
 Print Assumptions C19_deser_ser_id_oneormany.
